@@ -560,6 +560,14 @@ func (fr *Frame) execBranch(s *State, x *ast.BranchStmt) *State {
 		for i := len(fr.loops) - 1; i >= 0; i-- {
 			lc := fr.loops[i]
 			if x.Label == nil || lc.label == x.Label.Name {
+				if lc.spec != nil {
+					// break hints: stepping stones proved in the state of this break and available after the loop
+					for i, h := range lc.spec.BreakHints {
+						t := fr.evalClause(s, h, x.Pos(), nil)
+						fr.vc.oblige(s, fmt.Sprintf("break-hint.L%d.", lc.ord), t, x.Pos(), fmt.Sprintf("loop %d break hint %d: %s", lc.ord, i+1, h.Text))
+						s.assume(t)
+					}
+				}
 				lc.breaks = append(lc.breaks, s)
 				return nil
 			}
